@@ -261,6 +261,7 @@ Proof.
     cbn [e_self e_edge E Esem set_pc set_pc_hold set_pc_slots set_pc_obj set_pc_pub leave_resolve
          tpc tslots tacc tkey nocyc_pc nocyc_res stored val_of] in *.
   all: try (specialize (Hmo _ (or_intror eq_refl)); discriminate).
+  all: try match goal with Hb : panics_at _ _ _ _ = true |- _ => rewrite (panics_at_false w Hnp) in Hb; discriminate end.
   all: try contradiction.
   all: repeat split; try assumption; try exact I; try (intros; discriminate); try (intros; contradiction).
   all: try solve [intros o' q' sn' d' Hq Hd x Hx; inversion Hq; inversion Hd; subst; destruct Hx as [<-|[]]; lia].
@@ -283,18 +284,24 @@ Proof.
     + apply (Vb _ _ _ _ eq_refl eq_refl). right. assumption.
     + apply deps_of_In in Hin. pose proof (k_e1 _ Hk _ _ Hin) as Hf. pose proof (Hdag _ _ _ Hf).
       pose proof (Vb _ _ _ _ eq_refl eq_refl k0 (or_introl eq_refl)). lia.
-  - intros k1 Hk1 d' Hd'. injection Hk1 as <-. rewrite (nth_error_nth _ _ _ Heqo) in *
-    rewrite (firstn_S_nth _ _ _ Heqo0) in Hd'. rewrite app_assoc in Hd'. apply in_app_or in Hd'.
+  - intros k1 Hk1 d' Hd'. inversion Hk1; subst.
+    match goal with Hg : nth_error (groups _ _ _) _ = Some ?l, Hd0 : nth_error ?l _ = Some _ |- _ =>
+      rewrite (nth_error_nth _ _ _ Hg) in *; rewrite (firstn_S_nth _ _ _ Hd0) in Hd' end.
+    rewrite app_assoc in Hd'. apply in_app_or in Hd'.
     destruct Hd' as [Hd'|[<-|[]]]; [apply (Vst _ eq_refl); assumption|apply Enew; reflexivity].
-  - intros k1 Hk1 d' Hd'. injection Hk1 as <-. rewrite (nth_error_nth _ _ _ Heqo) in *
-    rewrite (firstn_S_nth _ _ _ Heqo0) in Hd'. rewrite app_assoc in Hd'. apply in_app_or in Hd'.
+  - intros k1 Hk1 d' Hd'. inversion Hk1; subst.
+    match goal with Hg : nth_error (groups _ _ _) _ = Some ?l, Hd0 : nth_error ?l _ = Some _ |- _ =>
+      rewrite (nth_error_nth _ _ _ Hg) in *; rewrite (firstn_S_nth _ _ _ Hd0) in Hd' end.
+    rewrite app_assoc in Hd'. apply in_app_or in Hd'.
     destruct Hd' as [Hd'|[<-|[]]]; [apply (Vst _ eq_refl); assumption|apply Enew; reflexivity].
-  - intros k1 Hk1 d' Hd'. injection Hk1 as <-. rewrite (nth_error_nth _ _ _ Heqo) in *
-    rewrite (firstn_S_nth _ _ _ Heqo0) in Hd'. rewrite app_assoc in Hd'. apply in_app_or in Hd'.
+  - intros k1 Hk1 d' Hd'. inversion Hk1; subst.
+    match goal with Hg : nth_error (groups _ _ _) _ = Some ?l, Hd0 : nth_error ?l _ = Some _ |- _ =>
+      rewrite (nth_error_nth _ _ _ Hg) in *; rewrite (firstn_S_nth _ _ _ Hd0) in Hd' end.
+    rewrite app_assoc in Hd'. apply in_app_or in Hd'.
     destruct Hd' as [Hd'|[<-|[]]]; [apply (Vst _ eq_refl); assumption|apply Enew; reflexivity].
   - intros k1 Hk1 d' Hd'. apply (Vst k1 Hk1). rewrite (nth_error_nth _ _ _ Heqo).
     rewrite (firstn_S_nth _ _ _ Heqo), concat_app in Hd'. cbn [concat] in Hd'. rewrite app_nil_r in Hd'.
-    apply nth_error_None in Heqo0. rewrite firstn_all2 by assumption. assumption.
+    apply nth_error_None in Heqo0. rewrite (firstn_all2 _ Heqo0). assumption.
   - intros i' q' Hn. destruct (Nat.eq_dec i' n) as [->|Hne].
     + destruct (le_lt_dec (length (tslots (thr s id))) n) as [Hle|Hlt].
       * assert (nth_error (set_slot (tslots (thr s id)) n d) n = None) as E
@@ -302,6 +309,152 @@ Proof.
       * rewrite set_slot_same in Hn by assumption. inversion Hn; subst d.
         destruct (tmap s k) as [| |o']; try discriminate. destruct (oclosed (objs s o')); discriminate.
     + rewrite set_slot_other in Hn by assumption. eapply Vs; eassumption.
+Qed.
+
+
+Lemma done_mono s id e p k : inv1 w par s -> inv2 w s -> id < nthr s -> step_local w s id = Some e ->
+  is_done s k = true -> is_done (apply_eff s id e p) k = true /\ done_val (apply_eff s id e p) k = done_val s k.
+Proof.
+  intros Hi Hj Hid Hl Hd. destruct (mem_stable w par s id e p Hi Hj Hid Hl) as (Ma & Mb & _).
+  unfold is_done, done_val in *. destruct (tmap s k) as [| |o] eqn:Et; try discriminate.
+  rewrite (Ma _ _ Et). destruct (Mb _ _ Et Hd) as (B1 & B2 & _). rewrite B1, B2, Hd. auto.
+Qed.
+
+(* the tacc of a leader that is about to publish its result *)
+Lemma acc_fresh s l acc : inv3 s -> Forall2 (cres_ok s) l acc -> ~ In CC acc ->
+  acc = map (fun d => CV (freshv w rk (inp s) d)) l /\ forall d, In d l -> is_done s d = true.
+Proof.
+  intros Hk H. induction H as [|d c l acc Hc H IH]; intros Hn; [split; [reflexivity|intros d []]|].
+  destruct IH as [IH1 IH2]; [intros F; apply Hn; right; assumption|].
+  destruct c as [v| |]; cbn in Hc; [|exfalso; apply Hn; left; reflexivity|contradiction].
+  destruct Hc as (o & H1 & H2 & H3).
+  assert (Hdv : done_val s d = Some v) by (unfold done_val; rewrite H1, H2, H3; reflexivity).
+  split.
+  - cbn [map]. f_equal; [f_equal; apply (k_val _ Hk _ _ Hdv)|exact IH1].
+  - intros d' [<-|Hd']; [apply is_done_val; eauto|apply IH2; assumption].
+Qed.
+
+Lemma inv3_step s id s1 : inv1 w par s -> inv2 w s -> inv3 s -> step w s id = Some s1 -> inv3 s1.
+Proof.
+  intros Hi Hj Hk H. destruct (step_spec _ _ _ _ H) as (Hid & e & p & Hl & -> & Hp).
+  set (s' := apply_eff s id e p).
+  destruct (thr_after w par s id e p Hi Hid Hl) as (Tself & Toth & Tn). fold s' in Tself, Toth, Tn.
+  destruct (mem_stable w par s id e p Hi Hj Hid Hl) as (Ma & Mb & Mc & Md & Mn & Minp & Mroots & Mcyc).
+  fold s' in Ma, Mb, Mc, Md, Mn, Minp, Mroots, Mcyc.
+  destruct (step_self3 s id e p Hi Hj Hk Hid Hl) as (S1 & S2 & S3 & S4 & S5). fold s' in S5.
+  destruct (step_self_id w s id e Hl) as (Ia & Ib & Ic & Id & Ie).
+  pose proof (i_thr _ _ _ Hi id Hid) as Htid. pose proof (j_thr _ _ Hj id Hid) as Huid.
+  pose proof (k_thr _ Hk id Hid) as Hvid.
+  assert (Hkey : forall x, x < nthr s -> tkey (thr s' x) = tkey (thr s x)).
+  { intros x Hx. destruct (Nat.eq_dec x id) as [->|Hxi]; [rewrite Tself; assumption|].
+    destruct (Toth x Hx Hxi) as [->|(hi & r & h & _ & _ & ->)]; reflexivity. }
+  assert (Hgr : forall x, x < nthr s -> groups w s' x = groups w s x) by (intros x Hx; apply groups_eq; auto).
+  assert (Hem : forall x, In x (edges s) -> In x (edges s')) by (intros x; apply edges_mono).
+  assert (Hdm : forall k, is_done s k = true -> is_done s' k = true /\ done_val s' k = done_val s k)
+    by (intros k; apply done_mono; assumption).
+  (* what becomes done in this step *)
+  assert (Hnewdone : forall k, is_done s' k = true -> is_done s k = true \/
+            (is_done s k = false /\ tpc (thr s id) = PClose MDone /\ tkey (thr s id) = Some k /\
+             done_val s' k = Some (wcomp w (inp s k) k (tacc (thr s id))))).
+  { intros k Hd. destruct (is_done s k) eqn:Eo; [left; reflexivity|right]. split; [reflexivity|].
+    unfold is_done in Hd, Eo. destruct (tmap s' k) as [| |o] eqn:Et'; try discriminate.
+    destruct (Md _ _ Et') as [A|(A1 & A2 & A3 & A4 & A5 & A6)]; [|rewrite A5 in Hd; discriminate].
+    rewrite A in Eo. destruct (Mc _ _ A Eo) as [(C1 & _)|(C1 & C2 & C3 & C4)]; [congruence|].
+    split; [assumption|]. split; [assumption|].
+    unfold done_val. rewrite Et', Hd. f_equal.
+    pose proof (cancelled_false w par s (thr s id) Hi) as Hc.
+    clear - Hl C1 C2 C3 Hc. unfold step_local in Hl. cbv zeta in Hl. rewrite C1, C2, Hc, andb_false_r in Hl.
+    inversion Hl; subst e. unfold s', apply_eff. cbn. rewrite <- C3, upd_same. reflexivity. }
+  constructor.
+  - intros x Hx. destruct (le_lt_dec (nthr s) x) as [Hge|Hlt].
+    + destruct Tn as [E|(E & j & d & sy & h & Hc)]; [lia|]. assert (x = nthr s) as -> by lia.
+      constructor; rewrite Hc; unfold child_of; cbn; try exact I; try (intros; discriminate); try (intros; contradiction).
+      * intros i q. destruct i; discriminate.
+      * intros F; exact F.
+    + destruct (Nat.eq_dec x id) as [->|Hxi].
+      * constructor; rewrite ?Tself, ?Hgr by assumption; assumption.
+      * pose proof (k_thr _ Hk x Hlt) as Hv.
+        destruct (Toth x Hlt Hxi) as [E|(hi & r & h & Q1 & Q2 & E)].
+        -- constructor; rewrite ?E, ?Hgr by assumption; try apply Hv.
+           intros k Hkk d Hd. apply Hem. eapply (v_stored _ _ Hv); eassumption.
+        -- constructor; rewrite ?E, ?Hgr by assumption; cbn [slot_write tpc tslots tacc tkey]; try apply Hv.
+           ++ intros i q. destruct (Nat.eq_dec i hi) as [->|Hne].
+              ** destruct (le_lt_dec (length (tslots (thr s x))) hi) as [Hle|Hl'].
+                 --- assert (nth_error (set_slot (tslots (thr s x)) hi r) hi = None) as En
+                       by (apply nth_error_None; rewrite set_slot_length; assumption). congruence.
+                 --- rewrite set_slot_same by assumption. intros F. inversion F; subst r.
+                     pose proof (v_pc _ _ Hvid) as Vp. rewrite Q1 in Vp. exact Vp.
+              ** rewrite set_slot_other by assumption. apply (v_slots _ _ Hv).
+           ++ intros k Hkk d Hd. apply Hem. eapply (v_stored _ _ Hv); eassumption.
+  - intros c d Hin. rewrite Minp. destruct (edges_inv s id e p _ Hin) as [Ho|Hn]; [apply (k_e1 _ Hk); assumption|].
+    (* the edge stored by this step *)
+    clear - Hl Hn. unfold step_local in Hl. cbv zeta in Hl.
+    destruct (tpc (thr s id)) eqn:Epc; try (inversion Hl; subst e; discriminate);
+      repeat match type of Hl with
+             | context [match ?x with _ => _ end] => destruct x eqn:?
+             | context [if ?x then _ else _] => destruct x eqn:?
+             end; try discriminate; inversion Hl; subst e; cbn in Hn; try discriminate.
+    all: try (unfold do_release, after_resolve in Hn;
+              repeat match type of Hn with context [if ?x then _ else _] => destruct x end; discriminate).
+    all: inversion Hn; subst; unfold groups in *;
+      match goal with Hk : tkey _ = Some _ |- _ => rewrite Hk in * end;
+      unfold flatd; apply in_concat; eexists; split; eapply nth_error_In; eassumption.
+  - intros k Hd d Hin. rewrite Minp in Hin. destruct (Hnewdone k Hd) as [Ho|(Ho & C1 & C2 & C3)].
+    + destruct (k_e2 _ Hk k Ho d Hin) as [A B]. split; [apply Hem; assumption|apply (Hdm d B)].
+    + pose proof (v_stored _ _ Hvid k C2 d) as Vst. rewrite C1 in Vst. cbn [stored] in Vst.
+      assert (Hgk : groups w s id = wdeps w (inp s k) k) by (unfold groups; rewrite C2; reflexivity).
+      rewrite Hgk in Vst. split; [apply Hem; apply Vst; assumption|].
+      pose proof (u_acc _ _ _ Huid (length (groups w s id))) as Ua. unfold acc_index in Ua. rewrite C1 in Ua.
+      specialize (Ua eq_refl). rewrite firstn_all, Hgk in Ua.
+      destruct (acc_fresh s _ _ Hk Ua (v_acc _ _ Hvid)) as [_ Hall]. apply (Hdm d). apply Hall. assumption.
+  - intros c d Hin. destruct (edges_inv s id e p _ Hin) as [Ho|Hn].
+    + pose proof (k_e3 _ Hk _ _ Ho) as Hne. destruct (tmap s c) as [| |o] eqn:Et; [congruence| |rewrite (Ma _ _ Et); discriminate].
+      intros F. unfold s', apply_eff in F. cbn [tmap] in F. destruct (e_tmap e) as [[k' v']|] eqn:Ee; [|congruence].
+      unfold upd in F. destruct (Nat.eqb c k'); [|congruence].
+      destruct (step_mem w par s id e Hi Hid Hl) as [(B1 & _)|[(k0 & _ & _ & _ & B & _)|[(d0 & _ & B & _)|[(o0 & path & _ & B & _)|(k0 & _ & _ & B & _)]]]]; congruence.
+    + (* stored by the leader of c, whose task holds its pending result *)
+      assert (Hc : tkey (thr s id) = Some c /\ leaderpc (tpc (thr s id)) = true).
+      { clear - Hl Hn. unfold step_local in Hl. cbv zeta in Hl.
+        destruct (tpc (thr s id)) eqn:Epc; try (inversion Hl; subst e; discriminate);
+          repeat match type of Hl with
+                 | context [match ?x with _ => _ end] => destruct x eqn:?
+                 | context [if ?x then _ else _] => destruct x eqn:?
+                 end; try discriminate; inversion Hl; subst e; cbn in Hn; try discriminate.
+        all: try (unfold do_release, after_resolve in Hn;
+                  repeat match type of Hn with context [if ?x then _ else _] => destruct x end; discriminate).
+        all: inversion Hn; subst; split; [assumption|reflexivity]. }
+      destruct Hc as [C1 C2]. destruct (u_leader _ _ _ Huid c C1 C2) as [A _]. rewrite (Ma _ _ A). discriminate.
+  - intros k Hne. destruct (tmap s k) eqn:Et; [|apply (k_e5 _ Hk); congruence|apply (k_e5 _ Hk); congruence].
+    (* created by getOrCreateTask for a dependency *)
+    unfold s', apply_eff in Hne. cbn [tmap] in Hne. destruct (e_tmap e) as [[k' v']|] eqn:Ee; [|congruence].
+    unfold upd in Hne. destruct (Nat.eqb k k') eqn:Ek; [apply Nat.eqb_eq in Ek; subst k'|congruence].
+    clear - Hl Ee Hwf Hk Htid Et. unfold step_local in Hl. cbv zeta in Hl.
+    destruct (tpc (thr s id)) eqn:Epc; try (inversion Hl; subst e; discriminate);
+      repeat match type of Hl with
+             | context [match ?x with _ => _ end] => destruct x eqn:?
+             | context [if ?x then _ else _] => destruct x eqn:?
+             end; try discriminate; inversion Hl; subst e; cbn in Ee; try discriminate; try congruence.
+    all: try (unfold do_release, after_resolve in Ee;
+              repeat match type of Ee with context [if ?x then _ else _] => destruct x end; discriminate).
+    all: inversion Ee; subst.
+    + apply (Hwf (inp s k0) k0). unfold groups in *. rewrite Heqo1 in *. unfold flatd. apply in_concat.
+      eexists; split; eapply nth_error_In; eassumption.
+    + destruct (t_root _ _ _ Htid Heqo1) as (_ & _ & _ & _ & _ & ks & Hr).
+      unfold groups in Heqo. rewrite Heqo1 in Heqo.
+      destruct (find (fun r => fst r =? id) (roots s)) as [[id' ks']|] eqn:Ef; [|destruct g; discriminate].
+      apply find_some in Ef. destruct Ef as [Ef1 Ef2]. cbn in Ef2. apply Nat.eqb_eq in Ef2. subst id'.
+      destruct g; [|destruct g; discriminate]. cbn in Heqo. inversion Heqo; subst l.
+      eapply (k_roots _ Hk); [exact Ef1|eapply nth_error_In; eassumption].
+  - intros k v Hv. rewrite Minp. assert (Hd : is_done s' k = true) by (apply is_done_val; eauto).
+    destruct (Hnewdone k Hd) as [Ho|(Ho & C1 & C2 & C3)].
+    + destruct (Hdm k Ho) as [_ E]. rewrite E in Hv. apply (k_val _ Hk); assumption.
+    + rewrite C3 in Hv. inversion Hv; subst v.
+      assert (Hgk : groups w s id = wdeps w (inp s k) k) by (unfold groups; rewrite C2; reflexivity).
+      pose proof (u_acc _ _ _ Huid (length (groups w s id))) as Ua. unfold acc_index in Ua. rewrite C1 in Ua.
+      specialize (Ua eq_refl). rewrite firstn_all, Hgk in Ua.
+      destruct (acc_fresh s _ _ Hk Ua (v_acc _ _ Hvid)) as [Hacc _].
+      rewrite (freshv_unfold w rk Hdag (inp s) k). unfold flatd. rewrite Hacc. reflexivity.
+  - intros x ks k. rewrite Mroots. apply (k_roots _ Hk).
 Qed.
 
 End Inv3.
